@@ -6,9 +6,10 @@ from engine.core import Undecided
 class H:
     """One Kani harness: name, obligation text, complete (counted as proved) or bounded (with its bound)."""
 
-    def __init__(self, name, what, complete=False, bound=None, tiers=("quick", "thorough"), timeout=900, covers_optional=False):
+    def __init__(self, name, what, complete=False, bound=None, tiers=("quick", "thorough"), timeout=900, covers_optional=False, stubs=True):
         self.name, self.what, self.complete, self.bound, self.tiers, self.timeout = name, what, complete, bound, tiers, timeout
         self.covers_optional = covers_optional
+        self.stubs = stubs
 
 
 def run_harnesses(rep, scratch, crate, harnesses, jobs=8, need_stubs=True, mem_gb=24, batch=False):
@@ -31,7 +32,7 @@ def run_harnesses(rep, scratch, crate, harnesses, jobs=8, need_stubs=True, mem_g
         rep.solver_s += secs
         name = "kani:%s::%s" % (crate, h.name)
         if st == "ok":
-            if need_stubs and not r.get("stubs"):
+            if need_stubs and h.stubs and not r.get("stubs"):
                 rep.undecided.append("%s: expected `- Stub:` lines missing (vacuity guard 4)" % h.name)
             if r.get("covers_total") and r.get("covers_sat") != r.get("covers_total") and not h.covers_optional:
                 rep.undecided.append("%s: only %s of %s cover statements reached (vacuity guard 2)" % (h.name, r.get("covers_sat"), r.get("covers_total")))
